@@ -166,6 +166,8 @@ def parse(text):
         keys = KEYS.get(c["type"])
         objs, open_ = [], {}
         measures = c["data"].split(",")
+        if not c["data"].strip():
+            measures = []  # a chart without any note data has no measures
         rows_all = []
         for mi, mtxt in enumerate(measures):
             rows = [r.strip() for r in mtxt.split("\n") if r.strip()]
